@@ -21,6 +21,26 @@ theorem bind_ok {α β} (r : R α) (f : α → R β) (v : β) :
   | ok a => simp [bind, Except.bind]
   | error e => simp [bind, Except.bind]
 
+/-! ### pointwise relation between two lists (core Lean has no `Forall₂`) -/
+
+inductive All2 {α β} (R : α → β → Prop) : List α → List β → Prop
+  | nil : All2 R [] []
+  | cons {a b l1 l2} : R a b → All2 R l1 l2 → All2 R (a :: l1) (b :: l2)
+
+theorem All2.append {α β} {R : α → β → Prop} : ∀ {l1 : List α} {l2 : List β} {l1' : List α} {l2' : List β},
+    All2 R l1 l2 → All2 R l1' l2' → All2 R (l1 ++ l1') (l2 ++ l2')
+  | [], [], _, _, _, h => h
+  | _ :: _, _ :: _, _, _, .cons h t, h' => .cons h (All2.append t h')
+
+theorem All2.length {α β} {R : α → β → Prop} : ∀ {l1 : List α} {l2 : List β}, All2 R l1 l2 → l1.length = l2.length
+  | [], [], _ => rfl
+  | _ :: _, _ :: _, .cons _ t => by simp [All2.length t]
+
+theorem All2.imp {α β} {R S : α → β → Prop} (himp : ∀ a b, R a b → S a b) :
+    ∀ {l1 : List α} {l2 : List β}, All2 R l1 l2 → All2 S l1 l2
+  | [], [], _ => .nil
+  | _ :: _, _ :: _, .cons h t => .cons (himp _ _ h) (All2.imp himp t)
+
 /-! ### validity -/
 
 theorem setBit_append (bits : List Bool) (value : Bool) : setBit bits bits.length value = bits ++ [value] := by
